@@ -190,6 +190,28 @@ def run(ctx):
                         inst, off, _ = parse_iso(e_["hashdate"])
                         if not (t0 - 2 <= inst <= t1 + 2) or off != offset_at(z, int(inst)):
                             fails.append({"what": f"TZ={z}: hashdate {e_['hashdate']} of {n} does not denote the time of the run", "replay": {"tz": z}})
+                # the history is flattened on a machine in ANOTHER zone: the dates carried over denote the same instants
+                z2 = zones[(zones.index(z) + 3) % len(zones)]
+                set_tz(z2)
+                dest = os.path.join(d, "dest")
+                os.makedirs(dest)
+                x = rt.run("flatten", [root, dest])
+                evals += 1
+                pls = glob.glob(os.path.join(dest, "*", "*.mhl")) + glob.glob(os.path.join(dest, "*.mhl"))
+                if x.exit == 0 and pls:
+                    pm = rt.read_manifest(pls[0])
+                    src = {(r["path"], e_["fmt"]): e_["hashdate"] for r in m["records"] if r["kind"] == "file" for e_ in r["entries"]}
+                    for r in pm["records"]:
+                        for e_ in r["entries"]:
+                            a = src.get((r["path"], e_["fmt"]))
+                            try:
+                                if a is not None and e_.get("hashdate") and abs(parse_iso(e_["hashdate"])[0] - parse_iso(a)[0]) > 1e-3:
+                                    fails.append({"what": f"history written with TZ={z}, flattened with TZ={z2}: hashdate of {r['path']} ({e_['fmt']}) is {a} in the history and {e_['hashdate']} in the packing list: not the same instant", "replay": {"tz": z, "tz_flatten": z2}})
+                            except Exception as ex:
+                                fails.append({"what": f"packing list hashdate {e_.get('hashdate')!r}: {ex}", "replay": {"tz": z, "tz_flatten": z2}})
+                elif x.exit != 0:
+                    fails.append({"what": f"flatten with TZ={z2} of a history written with TZ={z}: exit {x.exit} {x.exc}", "replay": {"tz": z, "tz_flatten": z2}})
+                set_tz(z)
     finally:
         if old_tz is None:
             os.environ.pop("TZ", None)
